@@ -18,7 +18,8 @@ RULE = ("chains p0 <- p1 <- ... of length 1..5 of partitions (InMemoryPartition 
         "compared with the overlay of levels 0..k key by key, each key loaded on its own, before and after "
         "later calls (also at the end, after children and one or two *sibling* children of a random level were "
         "stored on top of it), and re-read through a cache-less backend; non-trivial = distinct (chain length, kinds, "
-        "parent provenances, backend) with at least one overlapping key")
+        "parent provenances, backend) with at least one overlapping key"
+        '; values may be partitions; a pass-through function hands levels on as its own result')
 ASSUMPTIONS = ["a child declares its parent by setting _merge_parent, as the repository's own tests do",
                "values inside partitions are drawn from the non-partition result domain"]
 TIMEOUT = 600
